@@ -59,7 +59,7 @@ type CallScript struct {
 }
 
 // TurnScript scripts one Produce/Exchange call.
-// Act: "emit" | "emit2" (emit twice) | "noemit" | "finish" | "emit_finish" | "err".
+// Act: "emit" | "emit2" (emit twice) | "noemit" | "finish" | "emit_finish" | "finish_ign" | "emit_finish_ign" | "err".
 type TurnScript struct {
 	Logs  []LogSpec   `json:"logs,omitempty"`
 	Act   string      `json:"act"`
@@ -284,6 +284,15 @@ func (st *ScriptState) turn(kind string, in arrow.RecordBatch, out *vgirpc.Outpu
 			return err
 		}
 		return out.Finish()
+	case "finish_ign": // Finish with its verdict dropped (a state that only logs the refusal)
+		_ = out.Finish()
+		return nil
+	case "emit_finish_ign":
+		if err := emit(); err != nil {
+			return err
+		}
+		_ = out.Finish()
+		return nil
 	case "err":
 		return t.Err.raise()
 	}
